@@ -5,7 +5,7 @@ from hypothesis import strategies as st
 
 from mv import hperm
 
-from mv.runner import EnumPart, HypPart, Violation
+from mv.runner import EnumPart, FuzzPart, HypPart, Violation
 
 PROPERTY = "C14"
 RULE = ("Exhaustive sweep: every entry of the mass table x probe masses {m, m+-tol-+d, m+-tol+-d, midpoints to both "
@@ -288,4 +288,5 @@ PARTS = [
     EnumPart("loader-sweep", loader_cases, loader_oracle, chunk=400),
     EnumPart("write-read", roundtrip_cases, roundtrip_oracle, chunk=20),
     HypPart("random-lists", lambda tier: random_case(), random_oracle, {"quick": 3000, "thorough": 60000}),
+    FuzzPart("coverage-guided-lists", "random-lists", runs=5000),
 ]
